@@ -13,6 +13,8 @@ for d in sorted(glob.glob('/verif/seeded/C*-m*')):
             summ = summ.split(sep, 1)[1]
             break
     summ = summ.replace('|', '/')
+    if m.get('same_change_as'):
+        summ = '(same change as ' + m['same_change_as'] + ') ' + summ
     if len(summ) > 150:
         summ = summ[:147] + '...'
     rows.append(f"| {m['id']} | {m.get('wave', 1)} | {summ} | {'caught' if own.get('caught') else 'MISSED'}: {rules} | {', '.join(extra)} |")
